@@ -115,6 +115,10 @@ fn call() -> BoxedStrategy<Call> {
 }
 
 pub fn strategy() -> BoxedStrategy<Case> {
+    strategy_sized(10)
+}
+
+pub fn strategy_sized(max_steps: usize) -> BoxedStrategy<Case> {
     proptest::collection::vec(
         prop_oneof![
             10 => (proptest::collection::vec(call(), 1..10), prop_oneof![3 => Just(true), 1 => Just(false)])
@@ -122,7 +126,7 @@ pub fn strategy() -> BoxedStrategy<Case> {
             2 => Just(Step::Reopen),
             1 => Just(Step::ReadOnlyProbe),
         ],
-        1..10,
+        1..max_steps,
     )
     .prop_map(|steps| Case { steps })
     .boxed()
@@ -639,7 +643,7 @@ pub fn run(e: &Engine) {
         "lockstep",
         "1-9 steps: a transaction of 1-9 generated StorageTxn calls (whole surface, arbitrary Unicode contents) run in lock-step on InMemoryStorage and SqliteStorage and committed or abandoned, close/reopen, or a read-only probe; every return value compared, full dump compared after every transaction and reopen; non-trivial = >=1 commit, >=1 abandon, >=1 reopen and >=3 of {tasks, operations, base version, working set, sync_complete} touched",
         e.tier.pick(6000, 300_000),
-        strategy,
+        || strategy_sized(e.tier.pick(10, 40)),
         |c| serde_json::to_value(c).unwrap(),
         check_case,
     );
